@@ -214,8 +214,11 @@ def main(argv=None):
             validate_evidence(ev)
         except Exception as e:  # an invalid evidence file is reported, never hidden; the verdict above stands
             print(f"NOTE evidence file does not validate: {str(e)[:200]}")
-        os.makedirs(os.path.join(ROOT, "evidence"), exist_ok=True)
-        with open(os.path.join(ROOT, "evidence", f"{check_id}.json"), "w") as f:
+        # VERIF_EVIDENCE_DIR: development runs against a patched scratch tree (tools/seedrun.py --worktree) write elsewhere,
+        # so that evidence/ only ever holds what a run against /repo itself produced
+        evdir = os.environ.get("VERIF_EVIDENCE_DIR") or os.path.join(ROOT, "evidence")
+        os.makedirs(evdir, exist_ok=True)
+        with open(os.path.join(evdir, f"{check_id}.json"), "w") as f:
             json.dump(ev, f, indent=1, default=str)
     print(f"{check_id} {tier} seed={seed}: cases={len(results)} held={verdicts['held']} violated={verdicts['violated']} "
           f"inconclusive={verdicts['inconclusive']} {inconc} comparisons={comparisons} distinct_nontrivial={len(nontrivial_fps)} "
